@@ -888,7 +888,7 @@ func c15Pool() []core.Scenario {
 					func() error { return e.p.ScheduleWithTimeout(func() { ran.Add(1) }, time.Millisecond) },
 					func() error {
 						worker.NewDefaultInvokable[int](e.p, func(int) { ran.Add(1) }).Invoke(1)
-					return worker.NewDefaultInvokable[int](e.p, func(int) { ran.Add(1) }).InvokeWithTimeout(1, time.Millisecond)
+						return worker.NewDefaultInvokable[int](e.p, func(int) { ran.Add(1) }).InvokeWithTimeout(1, time.Millisecond)
 					},
 					func() error { return e.p.Schedule(func() { ran.Add(1) }) },
 				} {
